@@ -123,31 +123,52 @@ def oracle(ctx, case, res, real):
                                     inp, sorted(got_files), sorted(exp_files)))
     # routing: the plain run with --info-file-free reference: use the same command without demultiplexing and --rename to learn the last adapter name
     pc = plain_variant(case)
-    if not case["paired"]:
-        pc["argv"] = pc["argv"][:-2] + ["--rename", "{id} {adapter_name}"] + pc["argv"][-2:]
+    # the reference run learns the last-match names of every read that passes the filters: same command without demultiplexing and
+    # without the trimmed/untrimmed options (which would decide by their own pair-filter rule)
+    a2, skip = [], 0
+    for t in pc["argv"]:
+        if skip:
+            skip -= 1
+        elif t == "--discard-untrimmed":
+            pass
+        elif t in ("--untrimmed-output", "--untrimmed-paired-output"):
+            skip = 1
+        else:
+            a2.append(t)
+    pc["argv"] = a2
+    tmpl = "{id} {adapter_name}" if not case["paired"] else "{id} {r1.adapter_name} {r2.adapter_name}"
+    cut = 4 if case["paired"] else 2          # insert before the trailing `-o X [-p Y]`
+    pc["argv"] = pc["argv"][:-cut] + ["--rename", tmpl] + pc["argv"][-cut:]
     resp, realp = pipe.run_real(pc)
     if "error" in realp:
         return
-    if not case["paired"]:
-        where = {}
-        for fn, recs in real["files"].items():
-            for r in recs:
-                where.setdefault(rid(r[0]), []).append(fn)
-        for fn, recs in realp["files"].items():
-            if not fn.startswith("o1"):
-                continue
-            for r in recs:
-                k, an = r[0].split(" ")[0], r[0].split(" ")[1]
-                if an == "no_adapter":
-                    exp = [] if discard else (["ut1.fastq"] if ut else ["dm-unknown.1.fastq"])
+    where = {}
+    for fn, recs in real["files"].items():
+        for r in recs:
+            where.setdefault(rid(r[0]), []).append(fn)
+    for fn, recs in realp["files"].items():
+        if not fn.startswith("o1"):
+            continue
+        for r in recs:
+            parts = r[0].split(" ")
+            k, an = parts[0], parts[1]
+            an2 = parts[2] if case["paired"] else None
+            if comb:
+                if discard and (an == "no_adapter" or an2 == "no_adapter"):
+                    exp = []
                 else:
-                    exp = [f"dm-{an}.1.fastq"]
-                if discard and an == "no_adapter":
-                    continue    # already discarded in the plain run as well
-                if where.get(k, []) != exp:
-                    ctx.failures.append(Failure("C15/wrong-file", "read is not in the file named after the adapter of its last match", inp,
-                                                dict(read=k, files=where.get(k, [])), exp))
-                ctx.nontriv(("routed", k, an, tuple(argv)))
+                    key = f"dm-{an if an != 'no_adapter' else 'unknown'}-{an2 if an2 != 'no_adapter' else 'unknown'}"
+                    exp = [key + ".1.fastq", key + ".2.fastq"]
+            else:
+                sides = ("1", "2") if case["paired"] else ("1",)
+                if an == "no_adapter":
+                    exp = [] if discard else [f"ut{x}.fastq" for x in sides] if ut else [f"dm-unknown.{x}.fastq" for x in sides]
+                else:
+                    exp = [f"dm-{an}.{x}.fastq" for x in sides]
+            if sorted(where.get(k, [])) != sorted(exp):
+                ctx.failures.append(Failure("C15/wrong-file", "read (pair) is not in the file named after the adapter of its last match on R1 "
+                                            "(the pair of last-match names with {name1}/{name2})", inp, dict(read=k, files=where.get(k, [])), exp))
+            ctx.nontriv(("routed", k, an, an2, tuple(argv)))
     # multiset equality with the plain output when no trimmed/untrimmed option is used
     if not discard and not ut:
         for side in ("1", "2") if case["paired"] else ("1",):
@@ -168,6 +189,19 @@ def run(ctx):
     for case, res, real, model in pipe.run_cases(ctx, cases):
         ctx.count("directed" + ("-comb" if case["comb"] else "-paired" if case["paired"] else "-single"))
         oracle(ctx, case, res, real)
+    # demultiplexing through the adapter index (anchored barcodes, the usual way to demultiplex)
+    def extras(rng):
+        e = []
+        x = rng.random()
+        if x < 0.3:
+            e.append("--discard-untrimmed")
+        elif x < 0.5:
+            e += ["--untrimmed-output", "{dir}/ut1.fastq"]
+        if rng.random() < 0.25:
+            e += ["--times", "2"]
+        return e + ["-o", "{dir}/dm-{name}.1.fastq"]
+    pipeprop.indexed_sweep(ctx, oracle, 60, 1500, extras,
+                           prep=lambda c: c.update(demux_case=True, names=c["adapter_names"], names2=[], comb=False))
 
 
 def extended_search(ctx):
